@@ -106,9 +106,35 @@ let mem_comp c p = (not c.empty) && List.for_all (fun k -> mem_con_b k p) c.cons
 let string_of_q (x : q) = let x = qred x in string_of_z x.qnum ^ (if x.qden = XH then "" else "/" ^ string_of_z (Zpos x.qden))
 let string_of_pt p = "(" ^ String.concat "," (List.map string_of_q p) ^ ")"
 
-(* candidate points of the lattice of the proper congruences of m: point + integer combinations of the
-   parameters + half-integer multiples of the lines, in a window; None when the engine gives up *)
-let lattice_points dim (cgs : pcg list) : q list list option =
+(* ---- candidate points (untrusted enumeration; every candidate is afterwards tested by the proved-exact mem_*_b) ----
+   The lattice of the proper congruences: point + integer combinations of the parameters + half-integer multiples
+   of the lines.  The enumeration is AIMED at the constraints cs of the meet:
+     - one parameter, no line (a 1-dimensional slice): the exact range of the integer coordinate k allowed by the
+       constraints is computed; when bounded (<= 4000 values) ALL grid points of the slice inside the constraints
+       are enumerated (exhaustive); a one-sided range is enumerated from its end;
+     - otherwise the window is centred at the lattice point nearest (greedy, generator by generator) to the centre
+       of the bounding box of the constraints (exact sup / inf of every coordinate). *)
+module Fr = struct   (* small native rationals: only to choose which candidates to enumerate *)
+  type t = int * int
+  let rec gcd a b = if b = 0 then abs a else gcd b (a mod b)
+  let mk n d = if d = 0 then failwith "Fr" else let g = gcd n d in let g = if g = 0 then 1 else g in
+    let n, d = n / g, d / g in if d < 0 then (-n, -d) else (n, d)
+  let of_q (x : q) : t = let x = qred x in mk (int_of_string (string_of_z x.qnum)) (int_of_string (string_of_z (Zpos x.qden)))
+  let of_z (z : z) : t = (int_of_string (string_of_z z), 1)
+  let add (a, b) (c, d) = mk (a * d + c * b) (b * d)
+  let mul (a, b) (c, d) = mk (a * c) (b * d)
+  let neg (a, b) = (-a, b)
+  let div x (c, d) = mul x (mk d c)
+  let sign (a, _) = compare a 0
+  let floor (a, b) = if a >= 0 then a / b else - ((- a + b - 1) / b)
+  let ceil x = - (floor (neg x))
+  let round (a, b) = floor (mk (2 * a + b) (2 * b))
+  let zero = (0, 1)
+end
+let q_of_fr ((n, d) : Fr.t) : q = j_qmake (z_of_int n) (match z_of_int d with Zpos p -> p | _ -> XH)
+let exhaustive_slices = ref 0
+
+let lattice_points_aimed dim (cgs : pcg list) (cs : con list) : q list list option =
   match j_grid_gens (nat dim) cgs with
   | None -> None
   | Some gens ->
@@ -119,21 +145,72 @@ let lattice_points dim (cgs : pcg list) : q list list option =
      | [] -> Some []
      | p0 :: _ ->
        let ng = List.length pars + List.length lins in
-       let kr = if ng <= 1 then 12 else if ng = 2 then 6 else 3 in
-       let ks = List.init (2 * kr + 1) (fun i -> q_of_int (i - kr)) in
-       let ts = List.init (4 * kr + 1) (fun i -> q_half (i - 2 * kr)) in
-       let ts = if ng >= 3 then List.init (2 * kr + 1) (fun i -> q_of_int (i - kr)) else ts in
-       let acc = ref [p0] in
-       List.iter (fun g -> acc := List.concat_map (fun p -> List.map (fun k -> vadd p (vscale k g)) ks) !acc) pars;
-       List.iter (fun g -> acc := List.concat_map (fun p -> List.map (fun k -> vadd p (vscale k g)) ts) !acc) lins;
-       Some !acc)
+       let fallback center =
+         let kr = if ng <= 1 then 12 else if ng = 2 then 6 else 3 in
+         let ks = List.init (2 * kr + 1) (fun i -> q_of_int (i - kr)) in
+         let ts = List.init (4 * kr + 1) (fun i -> q_half (i - 2 * kr)) in
+         let ts = if ng >= 3 then List.init (2 * kr + 1) (fun i -> q_of_int (i - kr)) else ts in
+         let acc = ref [center] in
+         List.iter (fun g -> acc := List.concat_map (fun p -> List.map (fun k -> vadd p (vscale k g)) ks) !acc) pars;
+         List.iter (fun g -> acc := List.concat_map (fun p -> List.map (fun k -> vadd p (vscale k g)) ts) !acc) lins;
+         !acc in
+       (try
+         let fp0 = List.map Fr.of_q p0 in
+         let dotf a v = List.fold_left Fr.add Fr.zero (List.mapi (fun i c -> if i < dim then Fr.mul (Fr.of_z c) (List.nth v i) else Fr.zero) a) in
+         (match pars, lins with
+          | [ g ], [] when cs <> [] ->
+            (* the slice p0 + k g: every constraint a.x + b (>=|>|=) 0 bounds k *)
+            let fg = List.map Fr.of_q g in
+            let lo = ref None and hi = ref None in
+            let upd_lo v = lo := (match !lo with None -> Some v | Some w -> Some (max v w)) in
+            let upd_hi v = hi := (match !hi with None -> Some v | Some w -> Some (min v w)) in
+            List.iter (fun c ->
+              let al = dotf c.ccoefs fg and be = Fr.add (dotf c.ccoefs fp0) (Fr.of_z c.ccst) in
+              if Fr.sign al <> 0 then begin
+                let bound = Fr.div (Fr.neg be) al in       (* al*k + be >= 0 *)
+                if c.ckd = EQ then (upd_lo (Fr.ceil bound); upd_hi (Fr.floor bound))
+                else if Fr.sign al > 0 then upd_lo (Fr.ceil bound) else upd_hi (Fr.floor bound)
+              end) cs;
+            let range = (match !lo, !hi with
+              | Some a, Some b -> if b - a <= 4000 then (incr exhaustive_slices; Some (a, b)) else Some (a, a + 2000)
+              | Some a, None -> Some (a, a + 48)
+              | None, Some b -> Some (b - 48, b)
+              | None, None -> None) in
+            (match range with
+             | Some (a, b) -> Some (List.init (max 0 (b - a + 1)) (fun i -> vadd p0 (vscale (q_of_int (a + i)) g)))
+             | None -> Some (fallback p0))
+          | _ ->
+            (* centre of the bounding box of the constraints *)
+            let sys = j_sys cs in
+            let unit i = { lcoefs = List.init dim (fun j -> if i = j then Zpos XH else Z0); lcst = Z0 } in
+            let centre = List.mapi (fun i p0i ->
+              let su = (match j_sup (nat dim) (unit i) sys with Some (SupVal (v, _)) -> Some (Fr.of_q v) | _ -> None) in
+              let inf = (match j_inf (nat dim) (unit i) sys with Some (SupVal (v, _)) -> Some (Fr.of_q v) | _ -> None) in
+              match su, inf with
+              | Some a, Some b -> Fr.mul (Fr.add a b) (1, 2)
+              | Some a, None -> a | None, Some b -> b
+              | None, None -> p0i) fp0 in
+            let cur = ref fp0 in
+            let step half g =
+              let fg = List.map Fr.of_q g in
+              (match List.find_opt (fun i -> Fr.sign (List.nth fg i) <> 0) (List.init dim (fun i -> i)) with
+               | Some piv ->
+                 let t = Fr.div (Fr.add (List.nth centre piv) (Fr.neg (List.nth !cur piv))) (List.nth fg piv) in
+                 let k = if half then Fr.mk (Fr.round (Fr.mul t (2, 1))) 2 else (Fr.round t, 1) in
+                 cur := List.map2 (fun x y -> Fr.add x (Fr.mul k y)) !cur fg
+               | None -> ()) in
+            List.iter (step false) pars; List.iter (step true) lins;
+            Some (fallback (List.map q_of_fr !cur)))
+       with Failure _ | Division_by_zero | Not_found | Invalid_argument _ -> Some (fallback p0)))
 
-let samples_cache : (int * pcg list, q list list option) Hashtbl.t = Hashtbl.create 16
+let lattice_points dim (cgs : pcg list) : q list list option = lattice_points_aimed dim cgs []
+
+let samples_cache : (int * pcg list * con list, q list list option) Hashtbl.t = Hashtbl.create 16
 let samples_of dim (m : meet) : q list list option =
   if m.mempty then Some [] else begin
-    let key = (dim, m.mcgs) in
+    let key = (dim, m.mcgs, m.mcons) in
     let l = (try Hashtbl.find samples_cache key with Not_found ->
-               let r = lattice_points dim m.mcgs in
+               let r = lattice_points_aimed dim m.mcgs m.mcons in
                if Hashtbl.length samples_cache > 64 then Hashtbl.reset samples_cache;
                Hashtbl.replace samples_cache key r; r) in
     match l with None -> None | Some pts -> Some (List.filter (fun p -> List.for_all (fun c -> mem_con_b c p) m.mcons) pts)
@@ -647,4 +724,5 @@ let () =
     end
   done with End_of_file -> ());
   Printf.printf "STAT steps %d checks %d undecided %d cases %d sampled %d points %d\n" !steps !checks !undecided !cases !sampled !sample_points;
+  Printf.printf "COV exhaustive-1dim-slices %d\n" !exhaustive_slices;
   Hashtbl.iter (fun k v -> Printf.printf "COV %s %d\n" k v) cov
